@@ -401,9 +401,16 @@ func oracleC06Direct(res *hx.Result, u *universe, in *directInput, wasActive boo
 		}
 		fail(k, in, fmt.Sprintf("after modifiers.Apply (modified=%v): %v", a.modified, errs))
 	}
-	if wasActive && c.Status() != flows.ContactStatusActive {
+	if c.Status() != flows.ContactStatusActive {
 		if st := staticGroupsOf(u, c); len(st) > 0 {
-			fail(cls+":static-groups-kept-by-non-active-contact"+which, in, fmt.Sprintf("contact became %s but is still in static groups %v", c.Status(), st))
+			if wasActive {
+				fail(cls+":static-groups-kept-by-non-active-contact"+which, in, fmt.Sprintf("contact became %s but is still in static groups %v", c.Status(), st))
+			} else if !a.modified && !hasChangeEvent(a.eventsJS) && sameContact(a.pre, a.post) {
+				// stored as non-active and still listed in static groups; the modifier changed and reported nothing (twin of F6b)
+				fail("direct-noop-modifier:stored-non-active-contact-keeps-static-groups", in, fmt.Sprintf("after modifiers.Apply (modified=false) the %s contact is still in static groups %v", c.Status(), st))
+			} else {
+				fail(cls+":non-active-contact-left-in-static-groups-by-effective-modifier"+which, in, fmt.Sprintf("after modifiers.Apply (modified=%v) the %s contact is still in static groups %v", a.modified, c.Status(), st))
+			}
 		}
 	}
 	if !groupEventsAccountForChange(a.pre, a.post, a.eventsJS) {
